@@ -30,11 +30,15 @@ impl Scenario for BookScenario {
 		self.0.setup()
 	}
 	fn judge(&self, _st: SrvState, trace: &[String], panics: &[String], status: Status) -> Verdict {
-		let mut v = monitor(trace, self.0.conns.len(), self.0.max_subs as usize);
+		let mut v = monitor(trace, self.0.conns.len(), self.0.max_subs as usize, self.0.max_resp > 0);
 		if status != Status::Quiescent {
 			v.push((format!("machinery:{status:?}"), format!("{status:?}")));
 		}
 		for p in panics {
+			// accept() documents a panic when its answer exceeds max_response_body_size (the peer is told -32008 first)
+			if self.0.max_resp > 0 && p.contains("The subscription response was too big") {
+				continue;
+			}
 			v.push(("panic".into(), p.clone()));
 		}
 		let outcome: Vec<&String> = trace.iter().filter(|l| l.contains(":rx:") || l.contains("is_closed") || l.contains("eof")).collect();
@@ -51,6 +55,8 @@ struct SubLife {
 	released: Option<usize>,
 	/// handles currently held (after accept)
 	handles: Vec<bool>,
+	/// which handler script (= the subscribe call's first parameter)
+	script: Option<u64>,
 }
 
 /// Is `x` inside [a, b] for some position where pred holds?  `changes` = sorted positions with value after each.
@@ -74,7 +80,7 @@ fn value_in_interval(timeline: &[(usize, bool)], a: usize, b: usize) -> (bool, b
 	(t, f)
 }
 
-pub fn monitor(trace: &[String], nconns: usize, cap: usize) -> Vec<(String, String)> {
+pub fn monitor(trace: &[String], nconns: usize, cap: usize, oversized_accept: bool) -> Vec<(String, String)> {
 	let mut v: Vec<(String, String)> = Vec::new();
 	// ---- subscription lifecycles from the handler log
 	let mut subs: HashMap<(usize, String), SubLife> = HashMap::new();
@@ -90,6 +96,8 @@ pub fn monitor(trace: &[String], nconns: usize, cap: usize) -> Vec<(String, Stri
 		let e = subs.entry(key).or_insert_with(|| SubLife { conn: c, start: i, ..Default::default() });
 		if ev == "start" {
 			e.start = i;
+		} else if let Some(k) = ev.strip_prefix("script:") {
+			e.script = k.parse().ok();
 		} else if ev == "accept:ok" {
 			e.accept = Some(i);
 			e.handles.push(true);
@@ -104,7 +112,7 @@ pub fn monitor(trace: &[String], nconns: usize, cap: usize) -> Vec<(String, Stri
 					e.released.get_or_insert(i);
 				}
 			}
-		} else if ev.starts_with("return:") || ev == "reject" || ev == "drop-pending" || ev == "accept:err" || ev == "accept:cancelled" {
+		} else if ev.starts_with("return:") || ev == "reject" || ev == "drop-pending" || ev == "accept:err" || ev == "accept:cancelled" || ev == "gone" {
 			e.released.get_or_insert(i);
 		}
 	}
@@ -260,7 +268,15 @@ pub fn monitor(trace: &[String], nconns: usize, cap: usize) -> Vec<(String, Stri
 			if let Some(code) = resp["error"]["code"].as_i64() {
 				let script = r.params.get(0).and_then(|x| x.as_u64()).unwrap_or(0);
 				// harness scripts: 2 = reject (error 4001), 3 = drop the pending sink (the library answers -32603)
-				let allowed = code == -32006 || (script == 2 && code == 4001) || (script == 3 && code == -32603);
+				// with max_response_body_size below the size of the accept() answer the peer is told -32008 instead
+				let allowed = code == -32006 || (script == 2 && code == 4001) || (script == 3 && code == -32603) || (oversized_accept && code == -32008);
+				// the peer was told the subscribe failed: the handler's accept() cannot have produced a live sink
+				if code != -32006 {
+					if let Some(s) = subs.values().find(|s| s.conn == c && s.script == Some(script) && s.accept.is_some()) {
+						let _ = s;
+						v.push((format!("accept-succeeded-for-refused-subscribe:code{code}"), format!("connection {c}: the subscribe call (script {script}) was answered with error {code}, yet the handler's accept() returned a sink, so the subscription counts as active and holds its slot")));
+					}
+				}
 				if !allowed {
 					v.push((format!("subscribe-refused-with-wrong-code:cap{cap}"), format!("connection {c}: subscribe call answered with error {code} (expected -32006 when the connection is full); max_subscriptions_per_connection = {cap}")));
 				}
@@ -326,7 +342,8 @@ pub fn scenarios(thorough: bool) -> Vec<BookScenario> {
 	use PeerAct::*;
 	let mut v: Vec<BookScenario> = Vec::new();
 	let mut add = |name: String, conns: Vec<Vec<PeerAct>>, scripts: Vec<Vec<HStep>>, cap: u32, mask: fn(&str) -> bool| {
-		v.push(BookScenario(SubsScenario { name, conns, scripts, stop: false, mask, buffer: 16, max_subs: cap }));
+		let max_resp = if name.starts_with("oversized") { 100 } else { 0 };
+		v.push(BookScenario(SubsScenario { name, conns, scripts, stop: false, mask, buffer: 16, max_subs: cap, max_resp }));
 	};
 	let hold = vec![Accept, IsClosed];
 	let ret = vec![Accept, ReturnNone];
@@ -368,6 +385,21 @@ pub fn scenarios(thorough: bool) -> Vec<BookScenario> {
 	for h in [0usize, 1, 4] {
 		add(format!("drop-race:h{h}"), vec![vec![Subscribe(h), Subscribe(h), Unsub(0), CloseFrame]], scripts.clone(), 2, mask_harness_only);
 		add(format!("drop-race-two-conns:h{h}"), vec![vec![Subscribe(h), Drop], vec![Subscribe(h), UnsubForeign(0, 0), Subscribe(h), Subscribe(h)]], scripts.clone(), 2, mask_harness_only);
+	}
+	// accept() answers larger than max_response_body_size: each subscribe is refused with -32008 and must give its slot back
+	for cap in [1u32, 2] {
+		for h in [0usize, 1, 5] {
+			if !thorough && cap == 2 && h != 0 {
+				continue;
+			}
+			// distinct scripts per call so that the monitor can tell the handlers apart
+			let mut sc = scripts.clone();
+			sc.push(scripts[h].clone());
+			sc.push(scripts[h].clone());
+			sc.push(scripts[h].clone());
+			let n = scripts.len();
+			add(format!("oversized-accept-answer:cap{cap}:h{h}"), vec![vec![Subscribe(n), Subscribe(n + 1), Subscribe(n + 2)]], sc, cap, mask_harness_only);
+		}
 	}
 	if thorough {
 		add("mixed-endings:cap2".into(), vec![vec![Subscribe(1), Subscribe(2), Subscribe(3), Subscribe(0), Unsub(3), Subscribe(0), Subscribe(0)]], scripts.clone(), 2, mask_sub_points);
